@@ -23,6 +23,7 @@ for p in props:
         if m:
             ns[key] = eval(m.group(1))
     eng = ns.get("ENGINE", "E2")
+    ENG.setdefault("E2+E3", ENG["E2"] + "; plus " + ENG["E3"])
     checks.append({
         "property_id": pid,
         "quick_cmd": "./run check %s --tier quick" % pid,
@@ -44,7 +45,7 @@ man = {
               "source_commits": [], "add_only": True},
     "engines": [
         {"name": "E1", "path": "mc/e1.py", "serves_properties": ["C03", "C08", "C16"], "kind_free_text": ENG["E1"]},
-        {"name": "E2", "path": "mc/common.py + mc/exact.py + mc/alphabet.py", "serves_properties": [c["property_id"] for c in checks if c["engine"] == "E2"], "kind_free_text": ENG["E2"]},
+        {"name": "E2", "path": "mc/common.py + mc/exact.py + mc/alphabet.py", "serves_properties": [c["property_id"] for c in checks if "E2" in c["engine"]], "kind_free_text": ENG["E2"]},
         {"name": "E3", "path": "mc/e3.py", "serves_properties": ["C13"], "kind_free_text": ENG["E3"]},
     ],
     "checks": checks,
